@@ -2,6 +2,7 @@ package engines
 
 import (
 	"fmt"
+	"syscall"
 	"sort"
 	"strings"
 	"testing"
@@ -267,7 +268,9 @@ func agentStatus(t *testing.T, tp *simrt.Tape, cfg simrt.Config, sc *agentScenar
 		// modes 0/1: before/after the KillAt-th system call of the agent; modes 2/3: before/after its
 		// (KillAt mod 6)-th call on a compacted record file or unlink of a record file — the few calls of the
 		// end-of-run compaction, which a uniformly drawn index hardly ever hits
-		sc.KillMode = tp.Draw(simrt.SFault, 4)
+		// modes 4/5: before/after its (KillAt mod 12)-th call after a handler command has started — the run's
+		// steps are over, its handlers are not
+		sc.KillMode = tp.Draw(simrt.SFault, 6)
 		prior = chance(tp, 1, 3) // an earlier, successful run of the same DAG exists
 		sc.Second = cloneSpec(sc.Dag)
 		for i := range sc.Second.Steps {
@@ -297,8 +300,16 @@ func agentStatus(t *testing.T, tp *simrt.Tape, cfg simrt.Config, sc *agentScenar
 		}
 	}
 	if crash {
-		nCompact := 0
+		nCompact, nAfterHandler := 0, 0
+		handlerSeen := false
 		cfg.FaultPlan = func(op *simrt.OpInfo) simrt.Fault {
+			if first != nil && !handlerSeen && sc.KillMode >= 4 && cw != nil {
+				for _, r := range cw.truth.Runs {
+					if r.AgentPid == first.proc.Pid && strings.HasPrefix(r.Name, "on_") {
+						handlerSeen = true
+					}
+				}
+			}
 			if killed || first == nil || op.Proc != first.proc {
 				return simrt.Fault{}
 			}
@@ -306,6 +317,15 @@ func agentStatus(t *testing.T, tp *simrt.Tape, cfg simrt.Config, sc *agentScenar
 				if op.Index != sc.KillAt {
 					return simrt.Fault{}
 				}
+			} else if sc.KillMode >= 4 {
+				if !handlerSeen {
+					return simrt.Fault{}
+				}
+				nAfterHandler++
+				if nAfterHandler-1 != sc.KillAt%12 {
+					return simrt.Fault{}
+				}
+				op.Proc.W.Probe("killed_during_handlers")
 			} else {
 				if !(strings.Contains(op.Path, "_c.dat") || (op.Kind == "unlink" && strings.HasSuffix(op.Path, ".dat"))) {
 					return simrt.Fault{}
@@ -581,7 +601,9 @@ func agentStatus(t *testing.T, tp *simrt.Tape, cfg simrt.Config, sc *agentScenar
 			pending = name
 		}
 	}
-	// did the killed run succeed for real? (every step the semantics require completed, none of them failed)
+	// did the killed run succeed for real? (every step the semantics require completed, none of them failed,
+	// and the handlers that belong to the outcome had run to their end: a run killed inside its exit handler
+	// did not finish)
 	finishedForReal := !cutShort
 	for _, r := range cw.truth.Runs {
 		if r.AgentPid != first.proc.Pid || strings.HasPrefix(r.Name, "on_") {
@@ -592,6 +614,29 @@ func agentStatus(t *testing.T, tp *simrt.Tape, cfg simrt.Config, sc *agentScenar
 			finishedForReal = false
 			if pending == "" {
 				pending = r.Name + " (failed)"
+			}
+		}
+	}
+	if !cutShort && sc.Dag.DagPrecond != 2 {
+		want := []string{"exit"}
+		if finishedForReal {
+			want = append(want, "success")
+		} else {
+			want = append(want, "failure")
+		}
+		for _, hname := range want {
+			if _, ok := sc.Dag.Handlers[hname]; !ok {
+				continue
+			}
+			ended := false
+			for _, r := range firstRuns("on_" + hname) {
+				if r.EndSeq != 0 && r.Signaled == "" {
+					ended = true
+				}
+			}
+			if !ended {
+				cutShort, finishedForReal, pending = true, false, "handler on_"+hname
+				bump(out, "killed_with_handler_pending")
 			}
 		}
 	}
@@ -729,6 +774,10 @@ func agentDual(t *testing.T, tp *simrt.Tape, cfg simrt.Config, sc *agentScenario
 		sc.SecondAt = 1 + tp.Draw(simrt.SGen, 2500)
 	}
 	sc.SecondSub = "start"
+	if chance(tp, 1, 3) {
+		// "any further start or retry": the competitor retries an earlier, completed run of the same file
+		sc.SecondSub = "retry"
+	}
 	var cw *cliWorld
 	released := false
 	var releaseCh chan struct{}
@@ -743,6 +792,31 @@ func agentDual(t *testing.T, tp *simrt.Tape, cfg simrt.Config, sc *agentScenario
 			close(releaseCh)
 		}
 	}
+	var priorProc *cliProc
+	// fault: one transient accept(2) error (descriptor table full) on the active run's status socket — its
+	// endpoint must keep answering afterwards and a later start must still be refused
+	acceptErrAt := -1
+	if chance(tp, 1, 3) {
+		acceptErrAt = tp.Draw(simrt.SFault, 3)
+	}
+	nAccept := 0
+	cfg.FaultPlan = func(op *simrt.OpInfo) simrt.Fault {
+		if acceptErrAt < 0 || op.Kind != "accept" || cw == nil || len(cw.procs) == 0 {
+			return simrt.Fault{}
+		}
+		first := cw.procs[0]
+		if priorProc != nil && len(cw.procs) > 1 {
+			first = cw.procs[1]
+		}
+		if op.Proc != first.proc {
+			return simrt.Fault{}
+		}
+		nAccept++
+		if nAccept-1 != acceptErrAt {
+			return simrt.Fault{}
+		}
+		return simrt.Fault{Kind: simrt.FErr, Errno: syscall.EMFILE}
+	}
 	chk := &agentCheck{out: out, prop: "C16"}
 	path := dagPath(sc.Dag)
 	var survivorProbe []observation
@@ -750,13 +824,40 @@ func agentDual(t *testing.T, tp *simrt.Tape, cfg simrt.Config, sc *agentScenario
 		cw = newCLIWorld(w, tp)
 		fsOf(w).PutFile(path, []byte(sc.Dag.YAML()), 0o644)
 		releaseCh = make(chan struct{})
+		priorReq := ""
+		if sc.SecondSub == "retry" {
+			quick := cloneSpec(sc.Dag)
+			for i := range quick.Steps {
+				quick.Steps[i].DurMs, quick.Steps[i].FailFirst = []int{5}, 0
+				if len(quick.Steps[i].Depends) == 0 {
+					quick.Steps[i].FailFirst = -1 // so that a retry of this run has something to execute
+				}
+			}
+			p0 := cw.run(quick, nil, "start", path)
+			if !waitProcTimeout(p0.proc, 30*time.Minute) {
+				return
+			}
+			if st, _ := persistedStatusOf(nil, cw, p0); st != nil {
+				priorReq = st.RequestID
+			}
+			priorProc = p0
+			simrt.Sleep(time.Duration(pick(tp, 10, 1200)) * time.Millisecond)
+			if priorReq == "" {
+				sc.SecondSub = "start"
+			}
+		}
 		first := cw.run(sc.Dag, nil, "start", path)
 		if !sameMoment {
 			waitReleaseOrDeath(releaseCh, first.proc)
 		}
 		var others []*cliProc
 		for i := 1; i < sc.NStarts; i++ {
-			others = append(others, cw.run(sc.Dag, nil, "start", path))
+			if sc.SecondSub == "retry" {
+				others = append(others, cw.run(sc.Dag, nil, "retry", "--req="+priorReq, path))
+				w.Probe("competitor_is_retry")
+			} else {
+				others = append(others, cw.run(sc.Dag, nil, "start", path))
+			}
 		}
 		// while both may be alive: the status endpoint keeps answering
 		inProc(w, "prober", func() {
@@ -795,6 +896,9 @@ func agentDual(t *testing.T, tp *simrt.Tape, cfg simrt.Config, sc *agentScenario
 	}
 	var spans []span
 	for _, cp := range cw.procs {
+		if cp == priorProc {
+			continue // the earlier, completed run that the competitor retries
+		}
 		// execution span: from the first step/handler command to the end of the last one
 		sp := span{cp: cp}
 		for _, r := range cw.truth.Runs {
@@ -834,8 +938,17 @@ func agentDual(t *testing.T, tp *simrt.Tape, cfg simrt.Config, sc *agentScenario
 				if probeWindow(a.cp, b.cp) {
 					// each probed the socket before the other had bound it
 					disc = "window=probe..bind"
+				} else {
+					// three starts: if one of the two raced a third one through the window, the loser's exit
+					// removes the socket path that by then belongs to the winner, so a later probe finds nothing —
+					// a consequence of the same window, not a second defect
+					for _, o := range cw.procs {
+						if o != a.cp && o != b.cp && o != priorProc && (probeWindow(a.cp, o) || probeWindow(b.cp, o)) {
+							disc = "window=probe..bind"
+						}
+					}
 				}
-				chk.viol("both-executed", disc, "starts #%d and #%d of the same file both executed steps concurrently (probe/bind seq: #%d/#%d and #%d/#%d)", a.cp.idx, b.cp.idx, ap, ab, bp, bb)
+				chk.viol("both-executed", disc, "starts #%d and #%d of the same file both executed steps concurrently (probe/bind seq: #%d/#%d and #%d/#%d); output of the later one: %s", a.cp.idx, b.cp.idx, ap, ab, bp, bb, lastLines(b.cp.proc, 6))
 			}
 		}
 	}
@@ -868,6 +981,9 @@ func agentDual(t *testing.T, tp *simrt.Tape, cfg simrt.Config, sc *agentScenario
 	}
 	if windowRace {
 		bump(out, "probe_bind_window_hit")
+	}
+	if priorProc != nil {
+		nRecords-- // the earlier run's own record
 	}
 	if nRecords != executed {
 		disc := fmt.Sprintf("%d-records-%d-executed", nRecords, executed)
